@@ -247,6 +247,34 @@ func (fr *FuncRun) guardCheck(f *Frame, st *State, a Addr, write bool, v ssa.Val
 	fr.assertOb(st, "guarded", field, cond, pos, desc)
 }
 
+// publishCheck: storing a map into a lock-guarded field publishes it: from then on other goroutines reach the map
+// through the field, and a write through a reference kept from before (an alias without the field's provenance)
+// is a write to shared state that the guard discipline would not see. The ghost heap Published records it.
+func (fr *FuncRun) publishCheck(f *Frame, st *State, a Addr, t types.Type, v Val) {
+	if !fr.guardActive(f) {
+		return
+	}
+	if _, isMap := t.Underlying().(*types.Map); !isMap {
+		return
+	}
+	if _, _, ok := fr.guardInfo(a); !ok {
+		return
+	}
+	ph := fr.chanHeap("Published")
+	fr.heapSet(st, ph, sto(fr.heapCur(st, ph), v.T, "1"))
+	fr.pubUsed = true
+}
+
+// publishedWrite: a write to a map through a reference that does not come from a guarded field, in a function that
+// publishes maps: the map must not be one that was already published.
+func (fr *FuncRun) publishedWrite(st *State, mv Val, text string, pos token.Pos) {
+	if !fr.eng.checkGuards || !fr.pubUsed || mv.Prov != nil {
+		return
+	}
+	ph := fr.chanHeap("Published")
+	fr.assertOb(st, "guarded", "published:"+text, eq(sel(fr.heapCur(st, ph), mv.T), "0"), pos, "write to map "+text+" through a reference kept from before it was published in a lock-guarded field")
+}
+
 func (fr *FuncRun) guardProv(f *Frame, st *State, a Addr) *Prov {
 	if !fr.guardActive(f) {
 		return nil
